@@ -1,6 +1,6 @@
 (* E7 Dfir -- executable verdicts evaluated by the correspondence check (definitions only). *)
 From Coq Require Import List NArith Bool Arith.
-From HV Require Import Dfir.Model Dfir.ModelTick.
+From HV Require Import Dfir.Model Dfir.ModelTick Dfir.ModelFlat.
 Import ListNotations.
 Open Scope N_scope.
 
@@ -96,7 +96,8 @@ Definition c24_chk (avail : bool) (p : prog) (defers : list defer) (checks : lis
    bit1 = two variants' implementation runs differ from each other *)
 Definition c22_chk (avail : bool) (ordered : list bool) (h : list (list (list val)))
            (runs : list (prog * (list (list val) * list N))) : N :=
-  verdict (forallb (fun r => run_agree avail (fst r) (map ext_of h) ordered (fst (snd r)) (snd (snd r))) runs)
+  verdict (forallb (fun r => flat_applicable (fst r) &&
+                            run_agree avail (fst r) (map ext_of h) ordered (fst (snd r)) (snd (snd r))) runs)
           (match runs with
            | [] => true
            | r0 :: rest =>
@@ -136,13 +137,15 @@ Definition c26_chk (avail : bool) (p : prog) (e : option (list (list val) -> lis
 
 (* ------------------------------------------------------------------ C23 *)
 
-(* bit0 = implementation differs from the model run on the real partition; bit1 = implementation
-   differs from the denotation of the flat graph (every operator applied once per tick, in
-   topological order, to the complete lists produced for it in that tick) *)
-Definition c23_chk (avail : bool) (p flat : prog) (ordered : list bool) (h : list (list (list val)))
+(* bit0 = implementation differs from the model run on the real partition, or the real partition
+   does not satisfy the executable hypotheses of the transparency theorem (PFlatCheck.transparency);
+   bit1 = implementation differs from the denotation of the flat graph (every operator applied once
+   per tick, in topological order, to the complete lists produced for it in that tick), computed
+   by [flat_of] from the same lowered program *)
+Definition c23_chk (avail : bool) (p : prog) (ordered : list bool) (h : list (list (list val)))
            (impl_outs : list (list val)) (impl_obs : list N) : N :=
-  verdict (run_agree avail p (map ext_of h) ordered impl_outs impl_obs)
-          (run_agree avail flat (map ext_of h) ordered impl_outs impl_obs).
+  verdict (flat_applicable p && run_agree avail p (map ext_of h) ordered impl_outs impl_obs)
+          (run_agree avail (flat_of p) (map ext_of h) ordered impl_outs impl_obs).
 
 (* ------------------------------------------------------------------ C25 *)
 
